@@ -117,7 +117,18 @@ def grep_forbidden() -> List[str]:
     return hits
 
 
-def coq_prove(prop: str, clean: bool = False) -> Dict[str, Any]:
+def import_targets(imports: List[str]) -> List[str]:
+    """.vo targets of the libraries a property's case files import (they must be rebuilt with the property's closure:
+    generated files may have changed since they were last compiled)."""
+    out = []
+    for ln in imports:
+        m = re.match(r"From HTA\.(\w+) Require Import ([\w ]+)\.", ln.strip())
+        if m:
+            out += [f"{m.group(1)}/{n}.vo" for n in m.group(2).split()]
+    return out
+
+
+def coq_prove(prop: str, clean: bool = False, extra_targets: Optional[List[str]] = None) -> Dict[str, Any]:
     """Build the property's theorem file (full .vo build of its dependency closure) and parse the
     Print Assumptions output beneath each theorem."""
     res: Dict[str, Any] = {"ok": False, "theorems": [], "assumptions": {}, "log": "", "cmd": ""}
@@ -132,7 +143,7 @@ def coq_prove(prop: str, clean: bool = False) -> Dict[str, Any]:
                 os.remove(os.path.join(COQ, f"props/{prop}{ext}"))
             except FileNotFoundError:
                 pass
-        cmd = f"timeout 1500 make -j{NPROC} {target}"
+        cmd = f"timeout 1500 make -j{NPROC} {target} " + " ".join(extra_targets or [])
         res["cmd"] = f"cd {COQ} && {cmd}"
         rc, out = sh(cmd, cwd=COQ, timeout=1600)
     res["log"] = out[-6000:]
